@@ -15,6 +15,7 @@ func (w *Worker) park(s *State, at string) {
 		w.waiting = map[string][]*State{}
 	}
 	s.status = "parked"
+	s.merged = true
 	w.waiting[at] = append(w.waiting[at], s)
 }
 
@@ -75,7 +76,7 @@ func (w *Worker) canon(s *State) string {
 	}
 	sort.Strings(lk)
 	r.sb.WriteString("L " + strings.Join(lk, ",") + "\n")
-	fmt.Fprintf(&r.sb, "O %p\n", s.obs)
+	fmt.Fprintf(&r.sb, "O %p A %p\n", s.obs, s.abst)
 	for _, p := range s.pending {
 		fmt.Fprintf(&r.sb, "P %s t%d\n", p.id, p.pred.ID)
 	}
